@@ -1,6 +1,8 @@
 package proto
 
 import (
+	"bytes"
+	"sync"
 	"bufio"
 	"errors"
 	"fmt"
@@ -36,6 +38,9 @@ type Opts struct {
 	Quiet    time.Duration // silence that counts as "nothing more comes"
 	Sentinel string        // marker of the trailing ECHO that delimits the replies of the stream
 	Probe    bool          // measure whether the server had consumed each segment before the next write
+	// BusyFirst > 0: first occupy the connection's goroutine with SLEEP <BusyFirst> (a scheduling device, its reply is
+	// dropped), then write the stream: everything is queued in the socket when the server reads again
+	BusyFirst time.Duration
 }
 
 // Outcome of one exchange.
@@ -47,6 +52,10 @@ type Outcome struct {
 	Segments int
 	Probed   int // segments probed
 	Drained  int // ... of which the server-side receive queue was empty before the next write
+	// Late: the replies to the complete stream had not all arrived when the writer gave up waiting and sent the
+	// sentinel; LateHad of them were there before it (they arrived only once further input came in)
+	Late    bool
+	LateHad int
 }
 
 // Mode says how the end of the reply stream is recognised.
@@ -75,6 +84,10 @@ func Exchange(addr string, stream []byte, segs []int, mode Mode, want int, o Opt
 	laddr := tc.LocalAddr().(*net.TCPAddr)
 	raddr := tc.RemoteAddr().(*net.TCPAddr)
 
+	var lateMu sync.Mutex
+	late := false
+	// an HTTP request as first frame gets the connection closed after its reply: nothing to keep busy
+	busy := o.BusyFirst > 0 && len(stream) > 0 && !bytes.HasPrefix(stream, []byte("GET ")) && !bytes.HasPrefix(stream, []byte("POST "))
 	wdone := make(chan [3]int, 1)
 	gotWant := make(chan struct{}) // closed by the reader when the expected number of replies has arrived
 	go func() {
@@ -99,6 +112,19 @@ func Exchange(addr string, stream []byte, segs []int, mode Mode, want int, o Opt
 				}
 			}
 		}
+		if busy {
+			// in the syntax family of the stream's first frame, so that the connection's sticky output type is
+			// the one the stream itself would have set
+			tc.SetWriteDeadline(time.Now().Add(30 * time.Second))
+			arg := fmt.Sprintf("%.3f", o.BusyFirst.Seconds())
+			if stream[0] == '$' {
+				line := "SLEEP " + arg
+				tc.Write([]byte(fmt.Sprintf("$%d %s\r\n", len(line), line)))
+			} else {
+				tc.Write(t38.AppendCommand(nil, "SLEEP", arg))
+			}
+			time.Sleep(o.BusyFirst / 3)
+		}
 		for _, n := range segs {
 			if n > len(rest) {
 				n = len(rest)
@@ -113,6 +139,9 @@ func Exchange(addr string, stream []byte, segs []int, mode Mode, want int, o Opt
 			select {
 			case <-gotWant:
 			case <-time.After(o.Timeout - o.Timeout/5):
+				lateMu.Lock()
+				late = true
+				lateMu.Unlock()
 			}
 			tc.SetWriteDeadline(time.Now().Add(30 * time.Second))
 			tc.Write(t38.AppendCommand(nil, "ECHO", o.Sentinel))
@@ -167,6 +196,12 @@ func Exchange(addr string, stream []byte, segs []int, mode Mode, want int, o Opt
 		}
 	}
 	signal()
+	if busy {
+		// the reply of the SLEEP that kept the connection busy
+		if f, st, err := readOne(o.Timeout); err != nil || st != 0 || f.C != "ok" {
+			return out, fmt.Errorf("busy-first: SLEEP was not answered with OK (%v %v %v)", f.Short(), st, err)
+		}
+	}
 	for !ended && !(mode == CountQuiet && len(out.Frames) >= want) {
 		f, st, err := readOne(o.Timeout)
 		if err != nil {
@@ -177,6 +212,11 @@ func Exchange(addr string, stream []byte, segs []int, mode Mode, want int, o Opt
 			if mode == UntilSentinel && f.C == "bulk" && f.V == o.Sentinel {
 				ended = true
 			} else {
+				lateMu.Lock()
+				if !late {
+					out.LateHad = len(out.Frames) + 1
+				}
+				lateMu.Unlock()
 				out.Frames = append(out.Frames, f)
 				signal()
 			}
@@ -200,6 +240,9 @@ func Exchange(addr string, stream []byte, segs []int, mode Mode, want int, o Opt
 	if err := waitWriter(); err != nil {
 		return out, err
 	}
+	lateMu.Lock()
+	out.Late = late && mode == UntilSentinel && len(out.Frames) > out.LateHad
+	lateMu.Unlock()
 	if mode == CountQuiet && !ended {
 		// everything was sent and the expected replies are here: now nothing more may come
 		for {
@@ -238,6 +281,10 @@ func CompareSpec(got Outcome, e Expected, tok Tokens, content bool) []string {
 	var d []string
 	if got.Syntax != "" {
 		d = append(d, "reply stream not well formed: "+got.Syntax)
+	}
+	if got.Late {
+		d = append(d, fmt.Sprintf("only %d of %d replies arrived while the client was waiting; the rest came after further input was sent "+
+			"(bytes of complete commands were held back in a buffer)", got.LateHad, len(got.Frames)))
 	}
 	if got.TimedOut {
 		if e.Closed {
